@@ -326,6 +326,9 @@ class Ref:
                 ts = r.select(evn)
                 if not ts:
                     r.steps.append({'ev': evn, 'acts': [], 'trans': [], 'conf': sorted(r.confids()), 'noop': True, 'q': 'i'})
+                    n += 1
+                    if n > r.MAXMICRO or len(r.steps) > r.MAXSTEPS:
+                        r.diverged = True; return False
                     continue
             r.microstep(ts, evn)
             r.cur['q'] = 'i' if evn else 's'
